@@ -46,4 +46,35 @@ theorem stochasticRank_eq_pickT (scores : List LK.Stoch.Score) (cfg run : Option
   unfold LK.Stoch.stochasticRank
   simp only [pickT_eq]
 
+/-! ### the statement before the transform -/
+
+theorem scaledScoresT_eq (scores : List Q) (valid : List Bool) (scale : Q) :
+    scaledScoresT scores valid scale = (LK.ArrayOps.indexMask scores valid).map (· * scale) := by
+  unfold scaledScoresT npMulScalar
+  rfl
+
+/-- the finite scores of the model's view, scaled, are what the translated statement computes -/
+theorem scaled_eq (raw : List Q) (finite : List Bool) (scale : Q) :
+    (LK.Stoch.scoresOf raw finite).filterMap (LK.Stoch.finScaled scale) = scaledScoresT raw finite scale := by
+  rw [scaledScoresT_eq]
+  unfold LK.Stoch.scoresOf
+  induction raw generalizing finite with
+  | nil => cases finite <;> simp [LK.ArrayOps.indexMask]
+  | cons q qs ih =>
+    cases finite with
+    | nil => simp [LK.ArrayOps.indexMask]
+    | cons v vs => cases v <;> simp [LK.ArrayOps.indexMask, LK.Stoch.finScaled, List.filterMap_cons, ih vs]
+
+/-- **C19 (the whole call, linear / identity transform):** the model's `stochasticCall` is the translated statements run in the code's
+    order — scale the finite scores, transform them into weights, draw the keys, pick -/
+theorem stochasticCall_eq (linear : Bool) (raw : List Q) (finite : List Bool) (scale : Q) (cfg run : Option Int) (logu : List Q) (eps : Q) :
+    LK.Stoch.stochasticCall linear raw finite scale cfg run logu eps =
+      (let sc := scaledScoresT raw finite scale
+       let weights := if linear then linearWeightsT sc else sc
+       let eligible := (List.range (LK.Stoch.scoresOf raw finite).length).filter (fun p => ((LK.Stoch.scoresOf raw finite).getD p .nan).isFinite)
+       if eligible.length = 0 then []
+       else (pickT logu weights eps ((LK.Stoch.effN cfg run eligible.length : Nat) : Int)).filterMap (fun j => eligible[j]?)) := by
+  unfold LK.Stoch.stochasticCall
+  simp only [scaled_eq, linearWeightsT_eq, stochasticRank_eq_pickT]
+
 end LK.NpOps
